@@ -27,6 +27,7 @@ def t_select(chk, ix):
     rules_select.check_parent_links(chk, ix)
     rules_select.check_should_run_table(chk, ix)
     rules_select.check_tag_consultation(chk, ix)
+    rules_select.check_container_children_concrete(chk, ix)
     rules_select.check_builder_effects(chk, ix, ("B3", "G3", "G2"))
     rules_parser.check_tags_consumed(chk, ix, "G8")
     from .. import rules_outline, rules_tags
